@@ -225,5 +225,21 @@ def task_nad_step(ctx):
     nad_nuclear_step(ctx, False)
 
 
-TASKS_QUICK = ["verlet", "reversibility", "momentum", "kinetic", "nad_step", "thermo_bookkeeping", "thermo_with_velocity_scaling", "thermo_with_energy_shift", "thermo_with_com_removal"]
+def task_com_removal_callee(ctx):
+    """The callee contract the momentum clause relies on when centre-of-mass removal is switched on: _zero_com zeroes the linear
+    momentum and removes I*omega with the textbook inertia tensor about the centre of mass (shared with C13, run here so that
+    the C08 check stands on its own)."""
+    from contracts import C13_initial_conditions as C13
+
+    C13.task_zero_com(ctx)
+
+
+def task_com_removal_callee_angular(ctx):
+    """_zero_com with remove_angular: L' = L - I (I^+ L) about the centre of mass, wherever the molecule sits (shared with C13)."""
+    from contracts import C13_initial_conditions as C13
+
+    C13.task_zero_com_angular(ctx)
+
+
+TASKS_QUICK = ["verlet", "reversibility", "momentum", "kinetic", "nad_step", "com_removal_callee", "com_removal_callee_angular", "thermo_bookkeeping", "thermo_with_velocity_scaling", "thermo_with_energy_shift", "thermo_with_com_removal"]
 TASKS_THOROUGH = TASKS_QUICK
